@@ -622,3 +622,34 @@ func family2Case(toks []int, code []byte, variant int, mode string) *txCase {
 	k.Sig = map[string]string{"family": "program", "config": mode, "static": "no"}
 	return k
 }
+
+var (
+	calldataTokens = map[string]bool{"CALLDATALOAD": true, "CALLDATACOPY": true}
+	storageTokens  = map[string]bool{"SLOAD": true, "SSTORE": true, "SELFDESTRUCT": true}
+	allVariants    = []int{0, 1, 2, 3, 4, 5}
+)
+
+// family2Variants: variant = calldata index*2 + prestate index.
+func family2Variants(toks []int, reduce bool) []int {
+	if !reduce {
+		return allVariants
+	}
+	cd, st := false, false
+	for _, t := range toks {
+		cd = cd || calldataTokens[alphabet[t].name]
+		st = st || storageTokens[alphabet[t].name]
+	}
+	var out []int
+	for c := 0; c < 3; c++ {
+		if !cd && c != 2 {
+			continue
+		}
+		for p := 0; p < 2; p++ {
+			if !st && p != 1 {
+				continue
+			}
+			out = append(out, c*2+p)
+		}
+	}
+	return out
+}
